@@ -654,7 +654,10 @@ bool url::set_host_or_hostname(const std::string_view input) {
       // state.
       std::string_view port_buffer = new_host.substr(location + 1);
       if (!port_buffer.empty()) {
-        set_port(port_buffer);
+        // The length is checked once, below, for host and port together: a
+        // port that does not fit must fail the whole operation, not only be
+        // dropped.
+        set_port_unchecked(port_buffer);
       }
       return check_url_size();
     }
@@ -751,6 +754,18 @@ bool url::set_password(const std::string_view input) {
 }
 
 bool url::set_port(const std::string_view input) {
+  std::optional<uint16_t> previous_port = port;
+  if (!set_port_unchecked(input)) {
+    return false;
+  }
+  if (get_href_size() > ada::get_max_input_length()) {
+    port = std::move(previous_port);
+    return false;
+  }
+  return true;
+}
+
+bool url::set_port_unchecked(const std::string_view input) {
   if (cannot_have_credentials_or_port()) {
     return false;
   }
@@ -782,10 +797,6 @@ bool url::set_port(const std::string_view input) {
   std::optional<uint16_t> previous_port = port;
   parse_port(digits_to_parse);
   if (is_valid) {
-    if (get_href_size() > ada::get_max_input_length()) {
-      port = std::move(previous_port);
-      return false;
-    }
     return true;
   }
   port = std::move(previous_port);
